@@ -1,5 +1,6 @@
 import Driver.Util
 import RQ.ModelF.History
+import RQ.ModelF.Weekly
 /-! Driver commands for calendar and history (C20, C17). -/
 namespace Driver
 open RQ.F
@@ -41,6 +42,16 @@ def cmdData (toks : List String) : Option String :=
       | ["COUNT", s, e] => some (toString (countTradingDates cal (pN s) (pN e)))
       | ["APIEND", bo, td, cd] => some (sON (apiEndDate cal (pB bo) (pN td) (pN cd)))
       | _ => none
+  | "HISTW" :: isCS :: noAdj :: skip :: inow :: adj :: n :: dt :: orig :: rest =>
+      let (bs, r) := takeN rest
+      let bars := parseBars bs
+      let facs : Option (List (Nat × Float)) := match r with
+        | "-" :: _ => none
+        | _ => some (parseFacs (takeN r).1)
+      let t := if adj == "pre" then AdjustType.pre else if adj == "post" then AdjustType.post else AdjustType.none
+      match historyBarsWeekly bars (pB isCS) (pB noAdj) facs (pN n) (pN dt) (pB inow) (pB skip) t (pN orig) with
+      | none => some "NONE"
+      | some out => some (joinSp (toString out.length :: out.map showBar))
   | "HIST" :: isCS :: noAdj :: skip :: adj :: n :: dt :: orig :: rest =>
       let (bs, r) := takeN rest
       -- bars come as 9 tokens each; takeN counted tokens
